@@ -424,7 +424,7 @@ def run(S):
     from mirsym import models_typst as MT
     MT.KT = MT.KindTable(S.driver, S.adts)
     fdeep, covd = conserve.explore(S, want=('C12',), per_kind=40 if S.tier == 'quick' else 600, max_nodes=18 if S.tier == 'quick' else 50, deep=True)
-    fdocs, covdocs = deep.explore(S, want=('C12',))
+    fdocs, covdocs = deep.explore(S, deep.DOCS + ['$ mat(a, // c\n b; c) $\n', '$ mat(\n  a, b; // c\n  c, d\n) $\n', '$ f(a; // c\n b) $\n', '#f(a, // c\n b)\n', '#(a, // c\n b,\n\n c)\n', '$ mat(a, /* c\n d */ b; c) $\n', '#let s = "a\n  b"\n#f(s,\n  1)\n'], want=('C12',))
     for lab, info in fdeep + fdocs:
         found.append((lab.split(':', 1)[1], dict(info, site=info.get('kind') or 'document', function='deep')))
     und = sum(c['shapes'] - c['decided'] for c in covd.values())
